@@ -3,7 +3,7 @@
    Schema/StoreModel.v, the vocabulary Spec/StoreSpec.v. *)
 From PyGql Require Import Spec.StoreSpec Proofs.StoreProofs Proofs.StoreHeal Proofs.StoreLoop
      Proofs.StoreFrame Proofs.StoreClone Proofs.StoreOps Proofs.StoreTerm Proofs.StoreObserve
-     Spec.StoreExtSpec Proofs.StoreExtendP Proofs.StoreExtPres Proofs.StoreVis Proofs.StoreVisM Proofs.StoreCloneP Proofs.StoreDesc Proofs.StoreXform Proofs.StoreCamelC.
+     Spec.StoreExtSpec Proofs.StoreExtendP Proofs.StoreExtPres Proofs.StoreVis Proofs.StoreVisM Proofs.StoreCloneP Proofs.StoreDesc Proofs.StoreXform Proofs.StoreCamelC Proofs.StoreGen Proofs.StoreVisC.
 Local Open Scope N_scope.
 
 (* Schema(query, mutation, subscription, directives, types): whenever the
@@ -258,6 +258,29 @@ Theorem C14_camel_complete : forall fuel c m s m' s',
     exists o, alookup n (s_types s') = Some o /\ is_builtin o = false /\ tfull (mget m) c m' n o t.
 Proof. exact transform_camel_complete. Qed.
 Print Assumptions C14_camel_complete.
+
+(* Completeness of the visibility transform: exactly the members rejected by
+   a predicate, or whose type was removed, are missing. Every non-specified
+   type registered in the result descends from the source's type t of that
+   name ([ctd] of Proofs/StoreVisC.v) so that every member s of t either
+   - was rejected: is_field_visible / is_input_field_visible (type name, member
+     name) resp. the enum-value predicate returned False for its name, or
+   - refers to a type that is_type_visible hides ([thidden], input fields) or
+     that is not registered in the result ([tgone]), or
+   - has a descendant y among the members of the result (same attributes,
+     C14_vis_preserved), and then every argument of s either was rejected by
+     the argument predicate, or refers to a type not registered in the result,
+     or has a descendant among the arguments of y.
+   (Soundness -- nothing rejected or dangling is kept -- is
+   C14_visibility_members / C14_heal_closed.) *)
+Theorem C14_visibility_complete : forall fuel p m s m' s',
+  fresh_ok m -> builtins_ok m -> closed m s -> wf_schema m s -> wf_builtins s ->
+  transform fuel (vis_visitor p) m s = Ok (m', s') ->
+  forall n o, In (n, o) (s_types s') -> is_builtin o = false ->
+    exists t, In (n, t) (s_types s) /\
+      ctd (mget m) p (fun nm => In nm (map fst (s_types s'))) m' n o t.
+Proof. exact transform_vis_complete. Qed.
+Print Assumptions C14_visibility_complete.
 
 (* full statement (not proved): the result of an operation does not depend on
    the operations applied to the same source before *)
